@@ -30,6 +30,7 @@ RULE = ('programs = distinct Table D sequences of master versions >= 19 and loca
         'K assignments of delayed factors in 0..3 and bitmap patterns (all when <= K; K = 6 quick / 60 thorough), compressed '
         'and uncompressed; histories over caches of size 0,1,2,n.  Non-trivial = the program has a loop or an operator; '
         'distinct by SHA-1 of the message bytes; several data contents per program; table-sensitive pairs through marker / first-order / associated-field forms; `pybufrkit compile` output loaded back and executed')
+RULE += '; added with rounds 10-12: a manager whose caller keeps the handles (cache of one entry) and executes them after other templates were compiled; float replication factors to interpreting vs compiling encoders; twins with another tables root and compilation on'
 ASSUMPTIONS = ['only templates whose operators are opened and closed within one replication scope are compared (statement\'s proviso; predicate mon/gen/templates.scoped)',
                'marker operators while 204 is in force are not generated (grey, DESIGN 2.3)',
                'exceptions are compared by class', 'data come from R\'s producer; programs R cannot produce data for are counted, not compared']
